@@ -1711,6 +1711,14 @@ impl Model {
         Ok((self.vars, self.props, self.pending_lp_constraints))
     }
 
+    #[cfg(selen_verif)]
+    #[doc(hidden)]
+    /// Verification hook (cfg selen_verif): run the model's own lowering and validation
+    /// (`prepare_for_search`) and hand back the variables and propagators without searching.
+    pub fn verif_lower(self) -> Result<(crate::variables::Vars, crate::constraints::props::Propagators, Vec<crate::lpsolver::csp_integration::LinearConstraint>), crate::core::error::SolverError> {
+        self.prepare_for_search()
+    }
+
     /// Try to solve minimization using specialized optimization algorithms
     /// Returns Some(solution) if optimization succeeds, None if should fall back to search
     fn try_optimization_minimize(&self, objective: &impl View) -> Option<Solution> {
